@@ -25,7 +25,8 @@ Qed.
 Lemma converge_recorded a s o k v ok :
   admissible_now rank a s o -> additional_applies (o_req o) (o_status o) = false ->
   converge rank a s o k = CR v ok ->
-  ok = true /\ cv_mem v = fst (assign a s (o_req o) (o_status o)) /\ same_ips (cv_status v) (o_status o).
+  ok = true /\ cv_mem v = fst (assign a s (o_req o) (o_status o)) /\ same_ips (cv_status v) (o_status o) /\
+  (cv_status v = o_status o \/ cv_status v = sort2 rank (o_status o)).
 Proof.
   intros (Hlb & Hpools & Hcl & Hreq & Hst & Hfam & a' & Has & Hwp & Hwant) Hna.
   unfold converge. rewrite Hlb, Hcl, Hreq. cbn [negb].
@@ -63,7 +64,8 @@ Proof.
   { unfold stageD. destruct lb3; [congruence|reflexivity]. }
   rewrite ED. unfold stageE. destruct lb3 as [|y3 l3] eqn:E3; [congruence|].
   destruct (assigned_pool_exists _ _ _ _ _ _ Has) as (pn & q & Hpo & Hfp). cbn [cv_mem c2]. rewrite Hpo, Hfp.
-  intros [= <- <-]. cbn [cv_status cv_mem]. split; [reflexivity|]. split; [rewrite Has; reflexivity|exact Hsame3].
+  intros [= <- <-]. cbn [cv_status cv_mem]. split; [reflexivity|]. split; [rewrite Has; reflexivity|].
+  split; [exact Hsame3|exact Hlb3].
 Qed.
 
 Lemma admissible_sub m M s o : Inv m -> Inv M -> covers m M -> by_name (s_pools m) <> [] ->
@@ -88,7 +90,7 @@ Proof.
   destruct (set_balancer rank (w_ctl w) s (Some o) k) as [oc|] eqn:ES; [|discriminate].
   injection H as <- _. cbn [w_api w_ctl].
   destruct (set_balancer_mem rank _ _ _ _ _ ES Hp) as (v & ok & EC & Hmem & Hw).
-  destruct (converge_recorded _ _ _ _ _ _ Hadm Hna EC) as (_ & Hv & Hs).
+  destruct (converge_recorded _ _ _ _ _ _ Hadm Hna EC) as (_ & Hv & Hs & _).
   split; [|rewrite Hmem; exact Hv].
   destruct (oc_write oc) as [[st an]|].
   - destruct (k_write k).
